@@ -50,7 +50,10 @@ func (r *Real) wrapL(l at.List) at.List {
 		r.inner[at.List(d)] = l
 		return d
 	case 2:
-		d := &DL2{&DL{List: l}}
+		// as in the library's README: every embedding level registers itself in turn
+		mid := &DL{List: l}
+		mid.Init(mid)
+		d := &DL2{mid}
 		d.Init(d)
 		r.inner[at.List(d)] = l
 		return d
@@ -66,7 +69,9 @@ func (r *Real) wrapO(o at.Object) at.Object {
 		r.inner[at.Object(d)] = o
 		return d
 	case 2:
-		d := &DO2{&DO{Object: o}}
+		mid := &DO{Object: o}
+		mid.Init(mid)
+		d := &DO2{mid}
 		d.Init(d)
 		r.inner[at.Object(d)] = o
 		return d
